@@ -63,10 +63,10 @@ let () =
        | None -> A "none"
        | Some l -> L [A "some"; L [of_idxs l; of_list (of_opt of_z) (ids_of off s l)]])
                                    | _ -> raise (Bad "arity"));
-  (* (history_run fixD2 fixD3 default-format ops) -> per step (outcome numvar offsets labels expected-labels clauses) *)
-  register "history_run" (function [f2; f3; dflt; ops] ->
-      let f2 = to_bool f2 and f3 = to_bool f3 and dflt = to_fmt dflt in
-      let tr = trace f2 init_state (to_list to_op ops) in
+  (* (history_run fixD2 fixD3 fixD34 default-format ops) -> per step (outcome numvar offsets labels expected-labels clauses) *)
+  register "history_run" (function [f2; f3; f34; dflt; ops] ->
+      let v = { fixD2 = to_bool f2; fixD34 = to_bool f34 } and f3 = to_bool f3 and dflt = to_fmt dflt in
+      let tr = trace v init_state (to_list to_op ops) in
       of_list (fun (st, out) ->
           L [of_outcome out; of_z st.numvar; of_list (fun (off, _) -> of_z off) st.groups;
              of_strs (all_variable_labels f3 dflt st);
